@@ -59,7 +59,7 @@ def main():
                               'property oracle on the implementation for replays',
         }],
         'checks': checks,
-        'notes': 'fix: commits in /repo and KNOWN_FINDINGS.txt record genuine defects; see DESIGN.md section 6.',
+        'notes': 'fix: commits in /repo and KNOWN_FINDINGS.txt record genuine defects; see DESIGN.md sections 6 and 11 (as built: status per property, findings and their disposition, false alarms, trusted base, seeded changes).',
         'not_applicable': [{'property_id': p, 'reason': REASON_PENDING} for p in ALL if p not in CLAIMED],
     }
     with open(os.path.join(VERIF, 'MANIFEST.json'), 'w') as f:
